@@ -6,6 +6,7 @@ import (
 	"fmt"
 	"go/types"
 	"math/big"
+	"regexp"
 	"sort"
 	"strings"
 )
@@ -21,6 +22,8 @@ type Term struct {
 	Bits int
 	Low  int
 }
+
+var stdSizes = types.SizesFor("gc", "amd64")
 
 var (
 	tMath = types.Typ[types.UntypedInt]
@@ -267,8 +270,16 @@ func (r *Registry) typeKey(t types.Type) string {
 }
 
 // TypeID gives a stable small integer for a dynamic type held in an interface.
+var aliasWord = regexp.MustCompile(`\b(byte|rune)\b`)
+
 func (r *Registry) TypeID(t types.Type) int {
-	k := r.typeKey(t)
+	// byte and uint8 (rune and int32) are the same type
+	k := aliasWord.ReplaceAllStringFunc(r.typeKey(t), func(w string) string {
+		if w == "byte" {
+			return "uint8"
+		}
+		return "int32"
+	})
 	if id, ok := r.typeIDs[k]; ok {
 		return id
 	}
@@ -623,8 +634,14 @@ func (r *Registry) rangeFact(t Term, depth int) string {
 			return "(and (<= 0 " + t.S + ") (< " + t.S + " " + pow2(64) + "))"
 		}
 	case *types.Slice:
+		_ = u
 		_, _, off, ln, cp := r.sliceParts(t)
-		return "(and (<= 0 " + off + ") (<= 0 " + ln + ") (<= " + ln + " " + cp + ") (<= " + cp + " 9223372036854775807))"
+		// a slice lives in the 48-bit user address space: cap * element size <= 2^48
+		maxCap := "281474976710656"
+		if sz := stdSizes.Sizeof(u.Elem()); sz > 1 {
+			maxCap = new(big.Int).Div(new(big.Int).Lsh(big.NewInt(1), 48), big.NewInt(sz)).String()
+		}
+		return "(and (<= 0 " + off + ") (<= 0 " + ln + ") (<= " + ln + " " + cp + ") (<= " + cp + " " + maxCap + "))"
 	case *types.Struct:
 		si := r.StructInfo(t.T)
 		var fs []string
